@@ -17,6 +17,7 @@ var asymAlgs = []string{"ES256", "ES384", "ES512", "PS256", "PS384", "PS512", "E
 var forbiddenAlgs = []string{"none", "HS256", "HS384", "HS512", ""}
 
 func c17(r *Report) {
+	defer c17Seed8(r)
 	defer c17Seed5(r)
 	p := r.P
 	r.Explanation = "Static decision of the structural conditions for signed-token consumption: (1) closed-world inventory: every JWS/JWT parsing-with-verification primitive of the jwx library (jwt.Parse*, jws.Verify, jws.NewVerifier, Verifier.Verify, WithVerify, WithKeySet, WithKeyProvider, WithInferAlgorithmFromKey) is called only from the vetted consumers; all other code must go through crypto.ParseJWT; (2) each verifying consumer reaches its verify call / success return only through an exactly-one-signature test (or a construction that has exactly one: compact split, '..' split); (3) each consumer's verify is gated by its algorithm allow-list, or takes the algorithm from the resolved key; the allow-list tables contain only asymmetric algorithms (no 'none', no HMAC); (4) the key handed to the verify call comes only from the protocol's source (resolver callback, authorised-keys set, embedded public key that is not private)."
